@@ -180,6 +180,18 @@ pub fn check_msg_limit(
         p.header.code = coap_lite::MessageClass::Reserved(0);
         acc.class("code-0-built-as-Reserved(0)");
     }
+    if m.mid & 6 == 6 {
+        // option numbers that were used and cleared again hold no option
+        let mut nums: Vec<u16> = m.options.iter().map(|o| o.0.saturating_sub(1)).take(2).collect();
+        nums.push(m.options.first().map(|o| o.0 / 2).unwrap_or(9));
+        for n in nums {
+            if !m.options.iter().any(|o| o.0 == n) {
+                p.add_option(coap_lite::CoapOption::from(n), vec![1, 2]);
+                p.clear_option(coap_lite::CoapOption::from(n));
+                acc.class("with-cleared-option-numbers");
+            }
+        }
+    }
     let reference = match m.encode() {
         Ok(r) => r,
         Err(EncErr::OptionValueTooLong) => {
